@@ -348,6 +348,27 @@ func (w *gcWorld) indexOf(ix gcIdx) *index.Index {
 	return idx
 }
 
+// writeEntry materialises blob b at name in the worktree as the kind of entry the rendering gives it
+// (entryMode): a regular file, an executable file, or a symbolic link whose target is the blob content.
+func writeEntry(fs billy.Filesystem, name, b string) error {
+	_ = fs.Remove(name)
+	switch entryMode(b) {
+	case filemode.Symlink:
+		return fs.Symlink(string(blobContent(b)), name)
+	case filemode.Executable:
+		f, err := fs.OpenFile(name, os.O_CREATE|os.O_WRONLY|os.O_TRUNC, 0o755)
+		if err != nil {
+			return err
+		}
+		if _, err := f.Write(blobContent(b)); err != nil {
+			f.Close()
+			return err
+		}
+		return f.Close()
+	}
+	return writeFile(fs, name, blobContent(b))
+}
+
 func idxKey(e *index.Entry) string { return fmt.Sprintf("idx %s stage %d", e.Name, e.Stage) }
 
 func sortIndex(idx *index.Index) {
@@ -434,11 +455,11 @@ func (w *gcWorld) build(s gcState) error {
 		}
 	}
 	if s.Idx.A != "none" {
-		writeFile(w.root, "a", blobContent(s.Idx.A))
+		writeEntry(w.root, "a", s.Idx.A)
 	}
 	if s.Idx.D != "none" {
 		w.root.MkdirAll("d", 0o755)
-		writeFile(w.root, "d/b", blobContent(s.Idx.D))
+		writeEntry(w.root, "d/b", s.Idx.D)
 	}
 	if len(s.Shallow) > 0 {
 		var hs []plumbing.Hash
@@ -544,7 +565,7 @@ func (w *gcWorld) apply(s gcStep) error {
 			name = "d/b"
 			w.root.MkdirAll("d", 0o755)
 		}
-		if err := writeFile(w.root, name, blobContent(b)); err != nil {
+		if err := writeEntry(w.root, name, b); err != nil {
 			return err
 		}
 		if _, err := w.wt.Add(name); err != nil {
@@ -961,6 +982,20 @@ func copyTree(src, dst billy.Filesystem, dir string) error {
 			}
 			continue
 		}
+		mode := e.Type()
+		if fi, err := e.Info(); err == nil {
+			mode = fi.Mode()
+		}
+		if mode&os.ModeSymlink != 0 {
+			t, err := src.Readlink(p)
+			if err != nil {
+				return err
+			}
+			if err := dst.Symlink(t, p); err != nil {
+				return err
+			}
+			continue
+		}
 		f, err := src.Open(p)
 		if err != nil {
 			return err
@@ -969,6 +1004,20 @@ func copyTree(src, dst billy.Filesystem, dir string) error {
 		f.Close()
 		if err != nil {
 			return err
+		}
+		if mode&0o111 != 0 {
+			g, err := dst.OpenFile(p, os.O_CREATE|os.O_WRONLY|os.O_TRUNC, 0o755)
+			if err != nil {
+				return err
+			}
+			if _, err := g.Write(b); err != nil {
+				g.Close()
+				return err
+			}
+			if err := g.Close(); err != nil {
+				return err
+			}
+			continue
 		}
 		if err := writeFile(dst, p, b); err != nil {
 			return err
